@@ -1,3 +1,269 @@
-import Sbdf.Slice
+/-
+  C03 — Writer emits the canonical SBDF 1.0 byte stream.
+  The model writer (code-shaped: chunks, statuses, loops) is proved to emit exactly the bytes of
+  the declarative Spec (Sbdf/Spec.lean) for the canonical physical layout of the table: maximal
+  runs capped at 256 stored as length-1, MSB-first zero-padded bits, byte-size headers, and column
+  metadata folded into one name/type/default list in first-appearance order with per-column
+  presence flags.  The output is a function of the logical content only (the writer is a pure
+  function of the table; history independence of the C code is checked by the correspondence).
+-/
+import Sbdf.Lemmas.WSpec
+import Sbdf.Gen.Tables
+import Sbdf.Props.C02
+import Sbdf.Props.C04
 namespace Sbdf.C03
+open Spec WOut
+
+/-! ### value arrays: canonical run-length form -/
+
+/-- maximal runs capped at 256: no two adjacent runs carry the same value unless the first one
+    is full (256 rows, stored as 255) -/
+def CanonRuns : List (UInt8 × Bytes) → Prop
+  | (r1, v1) :: (r2, v2) :: rest => (v1 = v2 → r1 = 255) ∧ CanonRuns ((r2, v2) :: rest)
+  | _ => True
+
+theorem loop_head (rest : List Bytes) (run : Nat) (prev : Bytes) :
+    ∃ r tl, rleLoop rest run prev = (r, prev) :: tl := by
+  induction rest generalizing run prev with
+  | nil => exact ⟨_, [], rfl⟩
+  | cons cur rest ih =>
+    simp only [rleLoop]
+    split
+    · exact ⟨_, _, rfl⟩
+    · rename_i h
+      simp only [not_or, Decidable.not_not] at h
+      obtain ⟨r, tl, e⟩ := ih (run + 1) cur
+      rw [e, h.2]; exact ⟨r, tl, rfl⟩
+
+theorem loop_canon (rest : List Bytes) (run : Nat) (prev : Bytes) (h1 : 1 ≤ run) (h2 : run ≤ 256) :
+    CanonRuns (rleLoop rest run prev) := by
+  induction rest generalizing run prev with
+  | nil => simp [rleLoop, CanonRuns]
+  | cons cur rest ih =>
+    simp only [rleLoop]
+    split
+    · rename_i hc
+      obtain ⟨r, tl, e⟩ := loop_head rest 1 cur
+      have := ih 1 cur (by omega) (by omega)
+      rw [e] at this ⊢
+      refine ⟨?_, this⟩
+      intro hv
+      rcases hc with hc | hc
+      · subst hc; rfl
+      · exact absurd hv hc
+    · exact ih (run + 1) cur (by omega) (by omega)
+
+/-- the encoder emits maximal runs capped at 256 (and C02 shows they expand to the input) -/
+theorem rle_canonical (es : List Bytes) : CanonRuns (rleEncode es) ∧ rleExpand (rleEncode es) = es := by
+  refine ⟨?_, C02.rle_expand_encode es⟩
+  cases es with
+  | nil => simp [rleEncode, CanonRuns]
+  | cons e es => exact loop_canon es 1 e (by omega) (by omega)
+
+/-- a value array built by the constructors is written as the Spec bytes of that physical array -/
+theorem va_bytes (c : Cfg) (va : VA) (h : va.Writable) : Emits (writeVA c va) (Spec.va c va) := emits_va c va h
+
+/-! ### column-metadata folding -/
+
+/-- first appearance: an entry is kept iff no earlier entry (of any column) has its C-string name -/
+def firstAppearance : List MdEntry → List MdEntry → List MdEntry
+  | _, [] => []
+  | seen, e :: es =>
+    if seen.any (fun s => Md.nameEq s.name e.name) then firstAppearance (e :: seen) es
+    else e :: firstAppearance (e :: seen) es
+
+theorem fold_is_firstAppearance (es kept last r : List MdEntry) (h : foldColsAux es kept last = .ok r) :
+    r = kept.reverse ++ firstAppearance last es := by
+  induction es generalizing kept last with
+  | nil => simp [foldColsAux] at h; simp [firstAppearance, h]
+  | cons e es ih =>
+    simp only [foldColsAux] at h
+    cases hf : last.find? (fun l => Md.nameEq l.name e.name) with
+    | none =>
+      simp only [hf] at h
+      have := ih (e :: kept) (e :: last) h
+      have hany : last.any (fun s => Md.nameEq s.name e.name) = false := by
+        rw [List.any_eq_false]; intro x hx
+        have := List.find?_eq_none.mp hf x hx; simpa using this
+      simp [firstAppearance, hany, this]
+    | some p =>
+      simp only [hf] at h
+      split at h; · simp at h
+      split at h; · simp at h
+      have := ih kept (e :: last) h
+      have hany : last.any (fun s => Md.nameEq s.name e.name) = true := by
+        rw [List.any_eq_true]
+        exact ⟨p, List.mem_of_find?_eq_some hf, by have := List.find?_some hf; simpa using this⟩
+      simp [firstAppearance, hany, this]
+
+/-- when the writer accepts the column metadata, the name list is the first-appearance list -/
+theorem fold_order (all kept : List MdEntry) (h : foldCols all = .ok kept) : kept = firstAppearance [] all := by
+  have := fold_is_firstAppearance all [] [] kept h; simpa using this
+
+/-- the writer refuses (INCORRECT_METADATA, nothing else) exactly when folding fails -/
+theorem fold_error_status (all : List MdEntry) (e : Status) (h : foldCols all = .error e) : e = .incorrectMd := by
+  suffices hs : ∀ es kept last, foldColsAux es kept last = .error e → e = .incorrectMd from hs all [] [] h
+  intro es
+  induction es with
+  | nil => intro kept last h; simp [foldColsAux] at h
+  | cons x xs ih =>
+    intro kept last h
+    simp only [foldColsAux] at h
+    split at h
+    · exact ih _ _ h
+    · split at h
+      · simp at h; exact h.symm
+      · split at h
+        · simp at h; exact h.symm
+        · exact ih _ _ h
+
+/-- if every later occurrence of a name agrees in type and default with the earlier ones, the
+    writer accepts -/
+theorem fold_accepts (all : List MdEntry)
+    (hagree : ∀ (pre : List MdEntry) (e : MdEntry) (post : List MdEntry), all = pre ++ e :: post →
+      ∀ p ∈ pre, Md.nameEq p.name e.name = true → entryTid p = entryTid e ∧ objEqOpt p.dflt e.dflt = true) :
+    ∃ kept, foldCols all = .ok kept := by
+  suffices hs : ∀ (es : List MdEntry) (kept last : List MdEntry) (done : List MdEntry),
+      all = done ++ es → (∀ l ∈ last, l ∈ done) → ∃ r, foldColsAux es kept last = .ok r by
+    exact hs all [] [] [] (by simp) (by simp)
+  intro es
+  induction es with
+  | nil => intro kept last done _ _; exact ⟨_, rfl⟩
+  | cons x xs ih =>
+    intro kept last done hall hsub
+    simp only [foldColsAux]
+    cases hf : last.find? (fun l => Md.nameEq l.name x.name) with
+    | none =>
+      exact ih (x :: kept) (x :: last) (done ++ [x]) (by simp [hall]) (by
+        intro l hl; simp only [List.mem_cons] at hl; rcases hl with h | h
+        · simp [h]
+        · simp [hsub l h])
+    | some p =>
+      have hp := hsub p (List.mem_of_find?_eq_some hf)
+      have hn : Md.nameEq p.name x.name = true := by have := List.find?_some hf; simpa using this
+      have := hagree done x xs hall p hp hn
+      simp only [this.1, ne_eq, not_true_eq_false, if_false, this.2, Bool.not_true, Bool.false_eq_true]
+      exact ih kept (x :: last) (done ++ [x]) (by simp [hall]) (by
+        intro l hl; simp only [List.mem_cons] at hl; rcases hl with h | h
+        · simp [h]
+        · simp [hsub l h])
+
+/-! ### table metadata -/
+
+def tableTriples (es : List MdEntry) : List (Bytes × Obj × Option Obj) :=
+  es.filterMap (fun e => e.value.map (fun v => (e.name, v, e.dflt)))
+
+/-- the canonical physical layout the writer produces for `t` -/
+def canonPhys (t : TM) (kept : List MdEntry) : PhysTM :=
+  ⟨tableTriples t.table.entries,
+   kept.map (fun k => ⟨k.name, entryTid k, k.dflt⟩),
+   t.cols.map (fun col => kept.map (fun k => (col.find k.name).bind (·.value)))⟩
+
+/-- metadata as the API builds it: every entry has a value; all objects are serialisable -/
+def MdWritable (m : Md) : Prop :=
+  ∀ e ∈ m.entries, (∃ v, e.value = some v ∧ Writable v) ∧ ∀ d, e.dflt = some d → Writable d
+
+theorem emits_tableEntries (c : Cfg) (es : List MdEntry) (h : ∀ e ∈ es, (∃ v, e.value = some v ∧ Writable v) ∧ ∀ d, e.dflt = some d → Writable d) :
+    Emits (seqAll (es.map (writeTableEntry c))) ((tableTriples es).flatMap (fun e => tableEntry c e.1 e.2.1 e.2.2)) ∧
+    (tableTriples es).length = es.length := by
+  induction es with
+  | nil => exact ⟨Emits.nil, rfl⟩
+  | cons e es ih =>
+    obtain ⟨⟨v, hv, hw⟩, hd⟩ := h e (by simp)
+    obtain ⟨ih1, ih2⟩ := ih (fun x hx => h x (by simp [hx]))
+    simp only [List.map_cons, seqAll, tableTriples, List.filterMap_cons, hv, Option.map_some,
+      List.flatMap_cons, List.length_cons]
+    refine ⟨Emits.append ?_ ih1, by simpa [tableTriples] using ih2⟩
+    unfold writeTableEntry tableEntry
+    simp only [hv]
+    have := Emits.append (Emits.append (Emits.append (Emits.append (emits_string c e.name) (emits_int8 v.tid))
+      (emits_int8 1)) (emits_obj c v hw)) (emits_optObj c e.dflt hd)
+    exact Emits.congr this (by simp)
+
+/-- table metadata: the writer emits the Spec bytes of the canonical physical layout -/
+theorem tm_bytes (c : Cfg) (t : TM) (kept : List MdEntry) (hfold : foldCols (t.cols.flatMap (·.entries)) = .ok kept)
+    (htab : MdWritable t.table) (hcols : ∀ col ∈ t.cols, MdWritable col)
+    (hkept : ∀ k ∈ kept, ∀ d, k.dflt = some d → Writable d) :
+    Emits (writeTM c t) (Spec.tm c (canonPhys t kept)) := by
+  obtain ⟨he, hl⟩ := emits_tableEntries c t.table.entries htab
+  unfold writeTM Spec.tm canonPhys
+  simp only [hfold, Md.cnt, List.length_map, hl]
+  have hnames : Emits (seqAll (kept.map (writeNameRow c)))
+      ((kept.map (fun k => (⟨k.name, entryTid k, k.dflt⟩ : NameRow))).flatMap (nameRow c)) := by
+    rw [List.flatMap_map]
+    apply Emits.seqAllMap
+    intro k hk
+    exact Emits.append (Emits.append (emits_string c k.name) (emits_int8 _)) (emits_optObj c k.dflt (hkept k hk))
+  have hflags : Emits (seqAll (t.cols.map (writeColumnFlags c kept)))
+      ((t.cols.map (fun col => kept.map (fun k => (col.find k.name).bind (·.value)))).flatMap
+        (fun col => col.flatMap (optObj c))) := by
+    rw [List.flatMap_map]
+    apply Emits.seqAllMap
+    intro col hcol
+    unfold writeColumnFlags
+    rw [List.flatMap_map]
+    apply Emits.seqAllMap
+    intro k _
+    cases hf : col.find k.name with
+    | none => simpa [optObj] using emits_int8 0
+    | some e =>
+      have hmem : e ∈ col.entries := List.mem_of_find?_eq_some hf
+      obtain ⟨⟨v, hv, hw⟩, _⟩ := hcols col hcol e hmem
+      simp only [hv, Option.bind_some, optObj]
+      exact Emits.append (emits_int8 1) (emits_obj c v hw)
+  have := Emits.append (Emits.append (Emits.append (Emits.append (emits_sec 2)
+      (emits_int32 c (t.table.entries.length : Int))) he) (emits_int32 c (t.cols.length : Int)))
+    (Emits.append (Emits.append (emits_int32 c (kept.length : Int)) hnames) hflags)
+  exact Emits.congr this (by simp [List.append_assoc])
+
+/-! ### the whole file -/
+
+/-- C03: for every table the writers can represent, the sequence of writer calls
+    (header, table metadata, every slice, end marker) reports OK and emits exactly the bytes the
+    Spec assigns to the canonical physical layout of that table. -/
+theorem file_bytes (c : Cfg) (tm : TM) (slices : List (List CS)) (kept : List MdEntry)
+    (hfold : foldCols (tm.cols.flatMap (·.entries)) = .ok kept)
+    (htab : MdWritable tm.table) (hcols : ∀ col ∈ tm.cols, MdWritable col)
+    (hkept : ∀ k ∈ kept, ∀ d, k.dflt = some d → Writable d)
+    (hsl : ∀ s ∈ slices, ∀ x ∈ s, x.Writable) :
+    Emits (writeFile c ⟨tm, slices.map (fun s => ⟨s.map some⟩)⟩) (C04.file c (canonPhys tm kept) slices) := by
+  unfold writeFile C04.file
+  simp only [List.map_map]
+  have hs : Emits (seqAll (slices.map ((writeTS c) ∘ fun s => ⟨s.map some⟩))) (slices.flatMap (Spec.ts c)) := by
+    apply Emits.seqAllMap
+    intro s hs'
+    exact emits_ts c s (hsl s hs')
+  have := Emits.append (Emits.append (Emits.append emits_fh (tm_bytes c tm kept hfold htab hcols hkept)) hs) emits_end
+  exact Emits.congr this (by simp [List.append_assoc])
+
+/-! ### constants of the format, tied to the headers and the compiled code -/
+
+/-- the numeric constants of the format as model and Spec use them -/
+def expectedIds : List (String × Int) :=
+  [("SBDF_BOOLTYPEID", 1), ("SBDF_INTTYPEID", 2), ("SBDF_LONGTYPEID", 3), ("SBDF_FLOATTYPEID", 4),
+   ("SBDF_DOUBLETYPEID", 5), ("SBDF_DATETIMETYPEID", 6), ("SBDF_DATETYPEID", 7), ("SBDF_TIMETYPEID", 8),
+   ("SBDF_TIMESPANTYPEID", 9), ("SBDF_STRINGTYPEID", 10), ("SBDF_BINARYTYPEID", 12), ("SBDF_DECIMALTYPEID", 13),
+   ("SBDF_BYTETYPEID", 254),
+   ("SBDF_FILEHEADER_SECTIONID", 1), ("SBDF_TABLEMETADATA_SECTIONID", 2), ("SBDF_TABLESLICE_SECTIONID", 3),
+   ("SBDF_COLUMNSLICE_SECTIONID", 4), ("SBDF_TABLEEND_SECTIONID", 5),
+   ("SBDF_PLAINARRAYENCODINGTYPEID", 1), ("SBDF_RUNLENGTHENCODINGTYPEID", 2), ("SBDF_BITARRAYENCODINGTYPEID", 3),
+   ("SBDF_MAJOR_VERSION", 1), ("SBDF_MINOR_VERSION", 0)]
+
+/-- type ids, section ids, encoding ids and the version used by model and Spec are the macros of
+    the public headers (regenerated from the working tree on every run) -/
+theorem ids_match_headers : ∀ p ∈ expectedIds, p ∈ Gen.idMacros := by decide
+
+/-- the model's element-size and is-array tables are the graphs of `sbdf_get_unpacked_size`,
+    `sbdf_get_packed_size` and `sbdf_ti_is_arr` of the compiled code, for every id 0..255 -/
+theorem sizes_match_code : ∀ id ∈ List.range 256,
+    Gen.sizeRow id =
+      ((match unpackedSize id with | some n => (n : Int) | none => -3),
+       (match unpackedSize id with | some n => (n : Int) | none => -3),
+       (if isArr id then 1 else 0)) := by decide +kernel
+
+/-- non-vacuity -/
+example : foldCols [⟨[97], some ⟨2, [[1,0,0,0]]⟩, none⟩, ⟨[98], some ⟨2, [[1,0,0,0]]⟩, none⟩,
+    ⟨[97], some ⟨2, [[2,0,0,0]]⟩, none⟩] = .ok [⟨[97], some ⟨2, [[1,0,0,0]]⟩, none⟩, ⟨[98], some ⟨2, [[1,0,0,0]]⟩, none⟩] := by
+  rfl
+
 end Sbdf.C03
